@@ -85,6 +85,31 @@ def _quiet_adapter():
 _quiet_adapter()
 
 
+class _OsShim:
+    """stands in for `os` inside the external state adapter module: the order in which the state directory is listed is the
+    harness's decision (os.listdir's own order is arbitrary), everything else is the real module"""
+
+    def __init__(self, real):
+        self._real = real
+        self.order = "asc"
+
+    def listdir(self, path="."):
+        names = sorted(self._real.listdir(path))
+        return names if self.order == "asc" else names[::-1]
+
+    def __getattr__(self, name):
+        return getattr(self._real, name)
+
+
+def listdir_order(order):
+    """'asc' / 'desc': the order in which FileAdapter sees the files of its directory from now on"""
+    import sys
+    mod = sys.modules["BPTK_Py.externalstateadapter.externalStateAdapter"]
+    if not isinstance(mod.os, _OsShim):
+        mod.os = _OsShim(mod.os)
+    mod.os.order = order
+
+
 def body(resp):
     txt = resp.get_data(as_text=True)
     try:
